@@ -232,6 +232,11 @@ impl<T: Socket + ?Sized> Worker<T> {
                             if window.is_full() {
                                 break;
                             }
+                        } else {
+                            // out of sequence (duplicate or gap): the peer missed an
+                            // acknowledgement or a block, repeat the last acknowledgement
+                            window.empty()?;
+                            self.send_packet(&Packet::Ack(block_number))?;
                         }
                     }
                     Ok(Packet::Error { code, msg }) => {
